@@ -188,3 +188,57 @@ func vh_C06_PoolCutThenBurst() {
 	c06Drain(q, m, vfChoose("drain", 4))
 	vfReach("end")
 }
+
+// AT SCALE: a plain FIFO history and a both-ends history whose length is taken from the code (vfProbe: just beyond every
+// integer constant the LinkedListQueue methods compare a count with - a cap on the node cache, a batch size), next to
+// the small size 5; sync.Pool acts as a LIFO cache (no decision spent on it). Every return value is compared with the
+// ideal deque, as everywhere else. On a tree without such constants this is one small run.
+func vh_C06_AtScale() {
+	vfSetPoolMode(1)
+	n := vfProbe("n", "LinkedListQueue", 5, 5)
+	q := NewLinkedListQueue[int]()
+	m := &c06Model{}
+	if vfChoose("history", 2) == 0 {
+		for i := 0; i < n; i++ {
+			c06Apply("scale/", "Offer", q, m)
+		}
+		for i := 0; i < n-1; i++ {
+			c06Apply("scale/", "Shift", q, m)
+		}
+		for i := 0; i < n-1; i++ {
+			c06Apply("scale/", "Offer", q, m)
+		}
+	} else {
+		for i := 0; i < n; i++ {
+			if i%2 == 0 {
+				c06Apply("scale/", "Offer", q, m)
+			} else {
+				c06Apply("scale/", "Unshift", q, m)
+			}
+		}
+		for i := 0; i < n-1; i++ {
+			if i%3 == 0 {
+				c06Apply("scale/", "Pop", q, m)
+			} else {
+				c06Apply("scale/", "Shift", q, m)
+			}
+		}
+		for i := 0; i < n; i++ {
+			c06Apply("scale/", "Unshift", q, m)
+		}
+	}
+	drain := vfChoose("drain", 3) // from the head only, from the tail only, alternating
+	for len(m.items) > 0 {
+		if drain == 0 || (drain == 2 && vfConcrete(len(m.items))%2 == 0) {
+			c06Apply("scale-drain/", "Shift", q, m)
+		} else {
+			c06Apply("scale-drain/", "Pop", q, m)
+		}
+	}
+	c06Apply("drained/", "Shift", q, m)
+	c06Apply("drained/", "Pop", q, m)
+	c06Apply("drained/", "Peek", q, m)
+	c06Apply("refill/", "Offer", q, m)
+	c06Apply("refill/", "Shift", q, m)
+	vfReach("end")
+}
